@@ -16,12 +16,14 @@ pub enum Kind {
     Lorentz, // 1/(1+(a x)^2)
     Quad,    // a*x + a*a   (cheap, exactly representable for small integers)
     Bilin,   // a*x + b     (two parameters, exactly representable)
+    /// 1/(1+(a (x - 4k))^2): a comb of well separated peaks, a well-conditioned basis of any size
+    LorentzAt(u16),
 }
 impl Kind {
     pub fn arity(self) -> usize {
         match self {
             Kind::One | Kind::Lin => 0,
-            Kind::Exp | Kind::Lorentz | Kind::Quad => 1,
+            Kind::Exp | Kind::Lorentz | Kind::Quad | Kind::LorentzAt(_) => 1,
             Kind::Gauss | Kind::Sinus | Kind::Bilin => 2,
         }
     }
@@ -35,6 +37,7 @@ impl Kind {
             Kind::Lorentz => "lorentz",
             Kind::Quad => "quad",
             Kind::Bilin => "bilin",
+            Kind::LorentzAt(_) => "lorentzat",
         }
     }
     pub fn parse(s: &str) -> Kind {
@@ -64,6 +67,10 @@ pub fn kernel<T: Sc>(kind: Kind, x: &DVector<T>, a: &[T]) -> DVector<T> {
         Kind::Lorentz => x.map(|x| one / (one + (a[0] * x) * (a[0] * x))),
         Kind::Quad => x.map(|x| a[0] * x + a[0] * a[0]),
         Kind::Bilin => x.map(|x| a[0] * x + a[1]),
+        Kind::LorentzAt(k) => {
+            let c = T::of(4.0 * k as f64);
+            x.map(|x| one / (one + (a[0] * (x - c)) * (a[0] * (x - c))))
+        }
     }
 }
 
@@ -86,6 +93,13 @@ pub fn dkernel<T: Sc>(kind: Kind, w: usize, x: &DVector<T>, a: &[T]) -> DVector<
             let d = one + (a[0] * x) * (a[0] * x);
             -two * a[0] * x * x / (d * d)
         }),
+        (Kind::LorentzAt(k), 0) => {
+            let c = T::of(4.0 * k as f64);
+            x.map(|x| {
+                let d = one + (a[0] * (x - c)) * (a[0] * (x - c));
+                -two * a[0] * (x - c) * (x - c) / (d * d)
+            })
+        }
         (Kind::Quad, 0) => x.map(|x| x + two * a[0]),
         (Kind::Bilin, 0) => x.clone(),
         (Kind::Bilin, 1) => x.map(|_| one),
